@@ -510,6 +510,12 @@ def sweep_cases(full):
                 out.append(base(0, y, bymonth=[2, 12], byweekday=[[wd, n]]))
             for n in (list(range(-53, 0)) + list(range(1, 54)) if full else (-53, -52, -1, 1, 52, 53)):
                 out.append(base(0, y, byweekday=[[wd, n]]))
+            # YEARLY + BYMONTH with two adjacent months: an ordinal that does not exist in the first month
+            # (5th / -5th weekday) must not spill into the neighbour
+            if full or wd in (1, 4):
+                for m in range(1, 12):
+                    for n in ((-5, -4, 4, 5) if full else (-5, 5)):
+                        out.append(base(0, y, bymonth=[m, m + 1], byweekday=[[wd, n]]))
     for y in ((1996, 2000, 2008, 2038) if full else (2008,)):
         for o in (range(-80, 251) if full else range(-80, 251, 17)):
             out.append(base(0, y, byeaster=[o]))
